@@ -366,7 +366,8 @@ class Filterbank(ABC):
         chan_delays = self.header.get_dmdelays(dm)
         max_delay = int(chan_delays.max())
         gulp = max(2 * max_delay, gulp)
-        tim_len = self.header.nsamples - max_delay
+        nsamps_read = (self.header.nsamples - start) if nsamps is None else nsamps
+        tim_len = nsamps_read - max_delay
         tim_ar = np.zeros(tim_len, dtype=np.float32)
         for nsamps_r, ii, data in self.read_plan(
             gulp=gulp,
